@@ -56,4 +56,21 @@ func init() {
 		DesignRef: "DESIGN.md §6 C09",
 		Technique: technique,
 	})
+	register(Check{
+		ID: "C04", Title: "Static typing rules are exactly those of the specification", Level: "model_checking",
+		Units: []Unit{evalUnit([]string{"evaluator/common.go", "evaluator/c04.go"},
+			Harness{Fn: "ZZC04Assign", Quick: p("D", 1), Thorough: p("D", 2), Expect: []string{"accepted", "rejected", "witness:end"}},
+			Harness{Fn: "ZZC04Infer", Expect: []string{"infer-ok", "witness:end"}},
+			Harness{Fn: "ZZC04Ops", Expect: []string{"ops-accepted", "witness:end"}},
+		)},
+		Assumptions: []string{
+			"types: all types over num/string/bool/any with [] and {} up to nesting D (12 types at D=1, 28 at D=2); value kinds: variable, expression of variables, constant literal, empty literal (5 shapes); contexts: typed declaration + assignment, parameter, variadic parameter, return value; operators: all 13 binary and 2 unary operators, index, slice, dot, type assertion, if/while condition, range operand on variables of every type up to nesting 1",
+			"the oracle is the assignability section, operator table and inference rules of docs/spec.md transcribed into ~60 lines over type descriptors; ZZC04Infer explores every Go map iteration order inside the parser",
+		},
+		Outside:   []string{"types nested deeper than D", "literals with more than two elements", "combinations of several rules in one statement beyond the listed contexts"},
+		LevelText: "exhaustive exploration (every cell of the bounded type x kind x context space executed on the real code) of parser.Parse — accepts, matches, infer, combineTypes, fixedType, wrapAny, validateBinaryType, validateUnaryType, validateIndex, parseSlice, parseTypeAssertion, assertArgTypes, parseReturnStatement, parseCondition, parseForStatement — against the specification oracle, plus typeof of every accepted program through the evaluator",
+		LevelNote: "trusts the transcription of docs/spec.md in the harness; purely structural data (types), so the solver acts as the complete enumerator of the bounded space",
+		DesignRef: "DESIGN.md §6 C04",
+		Technique: technique,
+	})
 }
